@@ -112,6 +112,14 @@ def run_spec(draw):
         spec["nested"] = True
     else:
         spec["tree"] = {"name": "root", "kind": "FixedIncomeStrategy", "algos": algos, "children": children}
+    if not spec.get("nested") and n >= 4 and draw(st.integers(0, 2)) == 0:
+        # the notional schedule is only published on some dates (rebalance dates, or from a later start): it is read by date, and the
+        # stack stops on a date the schedule does not have
+        keep = sorted(draw(st.lists(st.integers(0, n - 1), min_size=1, max_size=n - 1, unique=True)))
+        fr = spec["frames"]["notl"]
+        fr["dates"] = [ds[i] for i in keep]
+        fr["values"] = [fr["values"][i] if fr["values"][i] is not None else 1e6 for i in keep]
+        spec["sparse_notional_schedule"] = True
     return spec
 
 
@@ -214,7 +222,15 @@ def case_run(ctx, spec):
             raise Violation("reported weight of %s is not notional / root notional" % m.full_name, signature="c17:report-weights")
     # targets right after Rebalance
     sub_scaled = False
+    sched = spec["frames"]["notl"]
+    sched_by_date = {pd.Timestamp(d): v for d, v in zip(sched.get("dates", spec["dates"]), sched["values"])}
     for now, N, notls, ws, tot, pre in post:
+        # what SetNotional hands to Rebalance is the schedule's entry dated today
+        want = sched_by_date.get(pd.Timestamp(now), "absent")
+        if want == "absent":
+            raise Violation("the stack went past SetNotional on %s although the notional schedule has no entry for that date (dates %s)" % (now, sorted(str(d.date()) for d in sched_by_date)), signature="c17:setnotional-absent-date")
+        if want is not None and not (N is not None and abs(float(N) - float(want)) <= 1e-9 * max(1.0, abs(want))):
+            raise Violation("SetNotional handed %r to Rebalance on %s, the schedule says %r for that date" % (N, now, want), signature="c17:setnotional-by-date")
         if N is None or (isinstance(N, float) and np.isnan(N)):
             continue
         for k, w in spec["weights"].items():
